@@ -137,35 +137,35 @@ func childMain(run *vlib.Run) {
 // ------------------------------------------------------------- parent
 
 type scenStat struct {
-	Name            string `json:"scenario"`
-	Note            string `json:"note"`
-	Ticks           int    `json:"ticks"`
-	Bound           int    `json:"preemption_bound"`
-	BoundCompleted  int    `json:"bound_completed"`
-	Exhaustive      bool   `json:"exhaustive_within_bound"`
-	FullyExplored   bool   `json:"all_interleavings_covered"`
-	CapHit          string `json:"cap_hit,omitempty"`
-	Schedules       int    `json:"schedules"`
-	Executions      int    `json:"executions"`
-	ChoicePoints    int64  `json:"choice_points_visited"`
-	Transitions     int64  `json:"transitions_fired"`
-	MaxPoints       int    `json:"max_choice_points_in_one_execution"`
-	Outcomes        int    `json:"distinct_outcomes"`
-	Deadlocks       int    `json:"deadlocks"`
-	Panics          int    `json:"panics"`
-	Nondeterministic int   `json:"nondeterministic_runs"`
-	LeakedMin       int    `json:"leaked_goroutines_min"`
-	LeakedMax       int    `json:"leaked_goroutines_max"`
-	RefSchedules    int    `json:"reference_schedules"`
-	WallS           float64 `json:"wall_s"`
+	Name             string  `json:"scenario"`
+	Note             string  `json:"note"`
+	Ticks            int     `json:"ticks"`
+	Bound            int     `json:"preemption_bound"`
+	BoundCompleted   int     `json:"bound_completed"`
+	Exhaustive       bool    `json:"exhaustive_within_bound"`
+	FullyExplored    bool    `json:"all_interleavings_covered"`
+	CapHit           string  `json:"cap_hit,omitempty"`
+	Schedules        int     `json:"schedules"`
+	Executions       int     `json:"executions"`
+	ChoicePoints     int64   `json:"choice_points_visited"`
+	Transitions      int64   `json:"transitions_fired"`
+	MaxPoints        int     `json:"max_choice_points_in_one_execution"`
+	Outcomes         int     `json:"distinct_outcomes"`
+	Deadlocks        int     `json:"deadlocks"`
+	Panics           int     `json:"panics"`
+	Nondeterministic int     `json:"nondeterministic_runs"`
+	LeakedMin        int     `json:"leaked_goroutines_min"`
+	LeakedMax        int     `json:"leaked_goroutines_max"`
+	RefSchedules     int     `json:"reference_schedules"`
+	WallS            float64 `json:"wall_s"`
 }
 
 type replayObj struct {
-	Scenario string   `json:"scenario"`
-	Tier     string   `json:"tier"`
-	Kind     string   `json:"kind"` // schedule-pair | isolation | concurrent | deadlock | panic | race
-	Choices  [][]int  `json:"choices"`
-	Detail   string   `json:"detail,omitempty"`
+	Scenario string  `json:"scenario"`
+	Tier     string  `json:"tier"`
+	Kind     string  `json:"kind"` // schedule-pair | isolation | concurrent | deadlock | panic | race
+	Choices  [][]int `json:"choices"`
+	Detail   string  `json:"detail,omitempty"`
 }
 
 func runShards(self string, sc scen.Scenario, tier string, nshards int, sem chan struct{}) (gs.Report, error) {
@@ -629,14 +629,15 @@ func parseRaces(stderr string) []raceReport {
 
 func inRepo(pos string) bool { return strings.HasPrefix(pos, "/repo/") }
 
-func racePass(run *vlib.Run) {
+// racePass runs the free-running -race binary; started concurrently with the exploration, its
+// findings are reported (report == true) after the exploration's.
+func racePass(run *vlib.Run) (report func()) {
 	if *fRaceBin == "" {
-		run.Set("race_pass", "skipped (no -racebin)")
-		return
+		return func() { run.Set("race_pass", "skipped (no -racebin)") }
 	}
-	iters, budget := 150, 15*time.Second
+	iters, budget := 40, 15*time.Second
 	if run.Thorough() {
-		iters, budget = 600, 90*time.Second
+		iters, budget = 300, 120*time.Second
 	}
 	args := []string{"-iters", strconv.Itoa(iters), "-procs", "1,2,4,16", "-budget", budget.String()}
 	if run.Thorough() {
@@ -647,49 +648,53 @@ func racePass(run *vlib.Run) {
 	var out, eb bytes.Buffer
 	cmd.Stdout, cmd.Stderr = &out, &eb
 	t0 := time.Now()
-	err := cmd.Run()
-	info := map[string]any{"iterations_per_scenario_per_gomaxprocs": iters, "gomaxprocs": []int{1, 2, 4, 16}, "wall_s": time.Since(t0).Seconds()}
-	if err != nil {
-		info["error"] = err.Error() + ": " + tail(eb.String(), 600)
+	done := make(chan error, 1)
+	go func() { done <- cmd.Run() }()
+	return func() {
+		err := <-done
+		info := map[string]any{"iterations_per_scenario_per_gomaxprocs": iters, "gomaxprocs": []int{1, 2, 4, 16}, "wall_s": time.Since(t0).Seconds()}
+		if err != nil {
+			info["error"] = err.Error() + ": " + tail(eb.String(), 600)
+		}
+		var free []string
+		for _, l := range strings.Split(out.String(), "\n") {
+			if strings.HasPrefix(l, "FREE-TOTAL") {
+				info["total"] = l
+			} else if strings.HasPrefix(l, "FREE ") && strings.Contains(l, "distinct_observations=") && !strings.HasSuffix(l, "distinct_observations=1") && !strings.HasSuffix(l, "distinct_observations=0") {
+				free = append(free, strings.TrimPrefix(l, "FREE "))
+			}
+		}
+		info["free_runs_with_more_than_one_observation"] = free
+		races := parseRaces(eb.String())
+		info["race_reports"] = len(races)
+		harness := 0
+		seen := map[string]bool{}
+		var sigs []string
+		for _, r := range races {
+			if !inRepo(r.pos[0]) && !inRepo(r.pos[1]) {
+				harness++
+				fmt.Printf("note: race report with both accesses outside /repo ignored (harness): %s %s / %s %s\n", r.fn[0], r.pos[0], r.fn[1], r.pos[1])
+				continue
+			}
+			fa, fb := r.fn[0], r.fn[1]
+			a, c := 0, 1
+			if fb < fa {
+				fa, fb = fb, fa
+				a, c = 1, 0
+			}
+			sig := "C09|data-race|" + fa + "|" + fb
+			if seen[sig] {
+				continue
+			}
+			seen[sig] = true
+			sigs = append(sigs, sig)
+			run.Report(sig, fmt.Sprintf("race detector (free-running scenarios, uninstrumented code): %s by %s at %s races with %s by %s at %s", r.kind[a], r.fn[a], r.pos[a], r.kind[c], r.fn[c], r.pos[c]),
+				replayObj{Kind: "race", Tier: run.Tier, Detail: fmt.Sprintf("%s %s | %s %s", r.fn[a], r.pos[a], r.fn[c], r.pos[c])})
+		}
+		info["harness_only_reports_ignored"] = harness
+		info["distinct_race_signatures"] = sigs
+		run.Set("race_pass", info)
 	}
-	var free []string
-	for _, l := range strings.Split(out.String(), "\n") {
-		if strings.HasPrefix(l, "FREE-TOTAL") {
-			info["total"] = l
-		} else if strings.HasPrefix(l, "FREE ") && strings.Contains(l, "distinct_observations=") && !strings.HasSuffix(l, "distinct_observations=1") {
-			free = append(free, l)
-		}
-	}
-	info["free_runs_with_more_than_one_observation"] = free
-	races := parseRaces(eb.String())
-	info["race_reports"] = len(races)
-	harness := 0
-	seen := map[string]bool{}
-	var sigs []string
-	for _, r := range races {
-		if !inRepo(r.pos[0]) && !inRepo(r.pos[1]) {
-			harness++
-			fmt.Printf("note: race report with both accesses outside /repo ignored (harness): %s %s / %s %s\n", r.fn[0], r.pos[0], r.fn[1], r.pos[1])
-			continue
-		}
-		fa, fb := r.fn[0], r.fn[1]
-		a, c := 0, 1
-		if fb < fa {
-			fa, fb = fb, fa
-			a, c = 1, 0
-		}
-		sig := "C09|data-race|" + fa + "|" + fb
-		if seen[sig] {
-			continue
-		}
-		seen[sig] = true
-		sigs = append(sigs, sig)
-		run.Report(sig, fmt.Sprintf("race detector (free-running scenarios, uninstrumented code): %s by %s at %s races with %s by %s at %s", r.kind[a], r.fn[a], r.pos[a], r.kind[c], r.fn[c], r.pos[c]),
-			replayObj{Kind: "race", Tier: run.Tier, Detail: fmt.Sprintf("%s %s | %s %s", r.fn[a], r.pos[a], r.fn[c], r.pos[c])})
-	}
-	info["harness_only_reports_ignored"] = harness
-	info["distinct_race_signatures"] = sigs
-	run.Set("race_pass", info)
 }
 
 // ------------------------------------------------------------- replay
@@ -800,6 +805,7 @@ func main() {
 		wall float64
 	}
 	results := make([]res, len(scs))
+	raceReport := racePass(run)
 	sem := make(chan struct{}, *fShards)
 	var wg sync.WaitGroup
 	for i, sc := range scs {
@@ -855,6 +861,6 @@ func main() {
 	run.Set("exhaustive", exhaustive)
 	run.Set("shards", *fShards)
 	run.Set("bounds", map[string]any{"tier": run.Tier, "ticks_and_preemption_bound_per_scenario": "see scenarios[]", "processors_per_machine": "1..3", "concurrent_simulations": "1..2"})
-	racePass(run)
+	raceReport()
 	run.Finish()
 }
